@@ -298,4 +298,42 @@ theorem reloadW_congr (look1 look2 : Life.BName → List Life.Msg) (h : ∀ b, l
   have : look1 = look2 := funext h
   rw [this]
 
+theorem lookupDQ_mem (dq : List (Life.BName × List Life.Msg)) (b : Life.BName) (m : Life.Msg)
+    (h : m ∈ Nsq.Model.Restart.lookupDQ dq b) : ∃ e ∈ dq, m ∈ e.2 := by
+  unfold Nsq.Model.Restart.lookupDQ at h
+  split at h
+  · rename_i e he
+    exact ⟨e, List.mem_of_find?_eq_some he, h⟩
+  · cases h
+
+/-- the metadata written by a state that `reloadW` built is the metadata it was built from, whatever
+the disk queues handed back -/
+theorem persisted_reloadW (cap : Nat) (look : Life.BName → List Life.Msg)
+    (md : List (String × Bool × List (String × Bool))) :
+    Life.persisted { memCap := cap, topics := reloadW look md } = md := by
+  unfold Life.persisted reloadW
+  simp only []
+  have h1 : (md.map (reloadTopicW look)).filter (fun T => !T.eph) = md.map (reloadTopicW look) := by
+    rw [List.filter_eq_self]
+    intro T hT
+    obtain ⟨e, _, rfl⟩ := List.mem_map.mp hT
+    rfl
+  rw [h1, List.map_map]
+  conv => rhs; rw [← List.map_id md]
+  apply List.map_congr_left
+  intro e _
+  simp only [Function.comp, reloadTopicW, id]
+  have h2 : (e.2.2.map (reloadChanW look e.1)).filter (fun C => !C.eph) = e.2.2.map (reloadChanW look e.1) := by
+    rw [List.filter_eq_self]
+    intro C hC
+    obtain ⟨c, _, rfl⟩ := List.mem_map.mp hC
+    rfl
+  rw [h2, List.map_map]
+  have h3 : e.2.2.map ((fun C : Life.Chan => (C.name, C.paused)) ∘ reloadChanW look e.1) = e.2.2 := by
+    conv => rhs; rw [← List.map_id e.2.2]
+    apply List.map_congr_left
+    intro c _
+    rfl
+  rw [h3]
+
 end Nsq.Proofs.DQGlue
